@@ -695,7 +695,8 @@ def _find_text_delim_idx(region_str):
     Find the indices of the DS9 text field delimiters ({}, '', or "") in
     a string.
     """
-    pattern = re.compile(r'(text\s*=\s*[{\'"])')
+    # keywords are case-insensitive (as everywhere else in the parser)
+    pattern = re.compile(r'(text\s*=\s*[{\'"])', re.IGNORECASE)
     idx0 = []
     delim = []
     start_idx = []
